@@ -144,7 +144,9 @@ def operator(signature, precedence, associativity, awaited=True, pure=True, toke
     def decorator(fn):
         Class.fn = fn
         Class.__name__ = fn.__name__
-        Class.return_type = typing.get_type_hints(fn).get("return")
+        # The operators that only exist to report a misuse ('#x', '@x', '%x',
+        # 'x+', 'x-', 'x(y)') are not annotated; they pass an integer through
+        Class.return_type = typing.get_type_hints(fn).get("return", int)
         return Class
 
     return decorator
